@@ -222,6 +222,10 @@ func (s *sackDriver) handleProbeLayers(parser *packets.FrameParser) (*common.Pro
 		if err != nil {
 			return nil, &common.BadPacketError{Err: fmt.Errorf("sackDriver failed to get ICMP info: %w", err)}
 		}
+		if icmpInfo.WrappedProtocol != layers.IPProtocolTCP {
+			log.Tracef("sackDriver ignored ICMP packet which quotes another protocol: %s", icmpInfo.WrappedProtocol)
+			return nil, errPacketDidNotMatchTraceroute
+		}
 
 		tcpInfo, err := packets.ParseTCPFirstBytes(icmpInfo.Payload)
 		if err != nil {
